@@ -517,6 +517,47 @@ CmdXPENDING(a, K) ==
                     ELSE {})
 
 -----------------------------------------------------------------------------
+(* XINFO STREAM key | GROUPS key | CONSUMERS key group — outside the listed properties' command lists, but a direct view of the
+   state they talk about (length, last id, the groups' positions and pending counts, the consumers' shares).  Only the pairs
+   named here are prescribed; FULL and HELP are not. *)
+CmdXINFO(a, K) ==
+  IF Len(a) < 3 THEN (IF Len(a) = 2 /\ Upper(a[2]) = L_HELP THEN Unspec(K) ELSE Fail(K))
+  ELSE LET sub == Upper(a[2]) key == a[3] IN
+    IF sub \notin {L_STREAM, L_GROUPS, L_CONSUMERS} THEN Fail(K)
+    ELSE IF WrongT(K, key, "stream") THEN Fail(K)
+    ELSE IF sub = L_STREAM THEN
+      (IF Len(a) > 3 THEN Unspec(K)
+       ELSE IF ~Has(K, key) THEN Fail(K)
+       ELSE LET v == K[key].v n == Len(v.ents)
+                ent(e) == IF n = 0 THEN ROneOf({RNil, RNilArr}) ELSE REnt(e)
+                top == IF n = 0 THEN ZeroId ELSE v.ents[n].id
+            IN Out(RInfoMap(<< <<L_length, RInt(n)>>,
+                               (* the greatest id ever added; the id of the last PRESENT entry is admitted as well (XINFO is in
+                                  no listed property, and ferrous answers that) *)
+                               <<L_lastmgeneratedmid, ROneOf({RBulk(IdBytes(v.last)), RBulk(IdBytes(top))})>>,
+                               <<L_groups, RInt(Cardinality(DOMAIN v.groups))>>,
+                               <<L_firstmentry, ent(IF n = 0 THEN 0 ELSE v.ents[1])>>,
+                               <<L_lastmentry, ent(IF n = 0 THEN 0 ELSE v.ents[n])>> >>), K))
+    ELSE IF sub = L_GROUPS THEN
+      (IF Len(a) # 3 THEN Fail(K)
+       ELSE IF ~Has(K, key) THEN Out(ROneOf({RErr, RArr(<<>>)}), K)
+       ELSE LET v == K[key].v gs == SetToSeq(DOMAIN v.groups)
+                row(g) == LET grp == v.groups[g]
+                              sure == Cardinality({c \in DOMAIN grp.cons : grp.cons[c] = "yes"})
+                          IN RInfoMap(<< <<L_name, RBulk(g)>>,
+                                         <<L_consumers, RIntRange(sure, Cardinality(DOMAIN grp.cons))>>,
+                                         <<L_pending, IF IsSkewed(grp) THEN RAny ELSE RInt(Cardinality(DOMAIN grp.pel))>>,
+                                         <<L_lastmdeliveredmid, RBulk(IdBytes(grp.ld))>> >>)
+            IN Out(RMapSet([i \in 1..Len(gs) |-> row(gs[i])]), K))
+    ELSE (* CONSUMERS *)
+      IF Len(a) # 4 THEN Fail(K)
+      ELSE IF ~Has(K, key) \/ ~HasG(K[key].v, a[4]) THEN Fail(K) \cup Dev("xgroupread_missing_noerr", ROneOf({RNilArr, RArr(<<>>)}), K)
+      ELSE LET grp == K[key].v.groups[a[4]] cs == SetToSeq(DOMAIN grp.cons) IN
+        IF IsSkewed(grp) \/ \E c \in DOMAIN grp.cons : grp.cons[c] # "yes" THEN Out(RAny, K)
+        ELSE Out(RMapSet([i \in 1..Len(cs) |->
+                   RInfoMap(<< <<L_name, RBulk(cs[i])>>, <<L_pending, RInt(Cardinality(OwnedBy(grp.pel, cs[i])))>> >>)]), K)
+
+-----------------------------------------------------------------------------
 StreamCommands == {"XADD", "XLEN", "XRANGE", "XREVRANGE", "XREAD", "XDEL", "XTRIM",
   "XGROUP", "XREADGROUP", "XACK", "XCLAIM", "XPENDING", "XINFO"}
 
@@ -533,7 +574,7 @@ StreamCmd0(name, a, K, obs) ==
     [] name = "XACK" -> CmdXACK(a, K)
     [] name = "XCLAIM" -> CmdXCLAIM(a, K)
     [] name = "XPENDING" -> CmdXPENDING(a, K)
-    [] name = "XINFO" -> Unspec(K)
+    [] name = "XINFO" -> CmdXINFO(a, K)
 
 (* known defect xid_lenient_parse: an id with an empty half ("1-", "-1", "-") reads that half as 0 and a half
    beyond 2^64-1 wraps around; the command then runs with the id so obtained *)
